@@ -435,6 +435,9 @@ def _run_chunked(ctx, case):
             whole = pd.Series(np.array(vals, dtype=dt), index=idx)
             det.process_hcm_first(whole)
             det.process_hcm_second(whole)
+        elif case.get("twice"):
+            # the same block (same load step labels) handed over twice, as pylife's own multi-index test does
+            det.process(series(0, n)).process(series(0, n), flush=True)
         else:
             for lo, hi in chunks:
                 det.process(series(lo, hi), flush=(hi == n))
@@ -447,6 +450,9 @@ def _run_chunked(ctx, case):
                 one = np.array([f * x for x in xs], dtype=dt)
                 det1.process_hcm_first(one)
                 det1.process_hcm_second(one)
+            elif case.get("twice"):
+                one = np.array([f * x for x in xs], dtype=dt)
+                det1.process(one).process(one, flush=True)
             else:
                 for lo, hi in chunks:
                     det1.process(np.array([f * x for x in xs[lo:hi]], dtype=dt), flush=(hi == n))
